@@ -52,12 +52,16 @@ def run_stream(ctx, stream, cases, impl, line, oracle, nontrivial, shrinks=None,
         vs = oracle(c, o)
         for key, what in vs:
             cc = c
+            if any(k == key for k, _, _ in ctx.violations):
+                continue
             if shrinks:
                 cc = shrink(c, shrinks, lambda x: any(k == key for k, _ in oracle(x, impl(x))))
             ctx.violation(key, what, cc)
         if i in model and differs(c, o, model[i]):
             cc, oo, mm = c, o, model[i]
-            if shrinks and len(ctx.disagreements) < 3:
+            if len(ctx.disagreements) >= 20:
+                continue
+            if shrinks and len(ctx.disagreements) < 2:
                 def bad(x):
                     ox = impl(x)
                     return differs(x, ox, one_model(x, ox))
